@@ -297,6 +297,64 @@ func c17(r *Report) {
 		}
 		okC = sT != nil && sN != nil && G(er).Before(sT, sN)
 		r.Decide("path", "(*M/har.Logger).ExportAndReset: the kept entries are closed into a ring again", okC, "tail = prev; tail.next = first", "after an export-and-reset with pending entries the list is not circular: later exports loop or drop entries", er.Pos())
+		// ... onto the first entry that is still pending: every entry the closing
+		// store can name was selected on the Response == nil edge of the walk
+		if sN != nil {
+			pendingEdge := func(blk *ssa.BasicBlock) bool {
+				for _, ce := range ctrlEdges(blk) {
+					b, isB := ce.If.Cond.(*ssa.BinOp)
+					if !isB {
+						continue
+					}
+					other := b.X
+					if isNilConst(b.X) {
+						other = b.Y
+					} else if !isNilConst(b.Y) {
+						continue
+					}
+					ld, isLd := other.(*ssa.UnOp)
+					if !isLd {
+						continue
+					}
+					rfa, isR := ld.X.(*ssa.FieldAddr)
+					if !isR || fieldObj(rfa) != fResp {
+						continue
+					}
+					if (b.Op == token.NEQ && !ce.Taken) || (b.Op == token.EQL && ce.Taken) {
+						return true
+					}
+				}
+				return false
+			}
+			bad := ""
+			seenPhi := map[*ssa.Phi]bool{}
+			var visit func(v ssa.Value, arrival *ssa.BasicBlock)
+			visit = func(v ssa.Value, arrival *ssa.BasicBlock) {
+				if phi, isPhi := v.(*ssa.Phi); isPhi {
+					if seenPhi[phi] {
+						return
+					}
+					seenPhi[phi] = true
+					for k, e := range phi.Edges {
+						visit(e, phi.Block().Preds[k])
+					}
+					return
+				}
+				if isNilConst(v) {
+					return
+				}
+				if arrival == nil {
+					if in, isIn := v.(ssa.Instruction); isIn {
+						arrival = in.Block()
+					}
+				}
+				if arrival == nil || !pendingEdge(arrival) {
+					bad = describeVal(v)
+				}
+			}
+			visit(sN.(*ssa.Store).Val, nil)
+			r.Decide("flow", "(*M/har.Logger).ExportAndReset: the ring is closed onto the first pending entry", bad == "", "the entry stored in tail.next is chosen on the Response == nil edge of the walk", "the ring is closed onto "+bad+", which need not be a pending entry (e.g. the old head): an exported entry stays linked and is returned again by later exports", sN.Pos())
+		}
 		// a pending entry is linked behind the previous pending one (skipping the exported ones in between)
 		okK := false
 		for _, in := range instrs(er) {
